@@ -350,7 +350,7 @@ def parse_shim(path):
 
 def run_breadlog(built, box, config, check=False, cwd=None, rules=None, shim=False, trace=False,
                  strace=False, timeout=120, env_extra=None, tmpdir=None, cfg_arg=None, async_signal=None, stdio_ops=False, stdin_tty=False,
-                 argv_override=None, wrap=None):
+                 argv_override=None, wrap=None, read_ops=False):
     """Run the real binary once. config: absolute path of the yaml (cfg_arg overrides what is passed)."""
     argv = [built.path, "-c", cfg_arg or config]
     if check:
@@ -374,6 +374,8 @@ def run_breadlog(built, box, config, check=False, cwd=None, rules=None, shim=Fal
             env["VF_SHIM_RULES"] = rules
         if stdio_ops:
             env["VF_SHIM_STDIO"] = "1"
+        if read_ops:
+            env["VF_SHIM_READS"] = "1"
     if trace and built.hooks:
         tracelog = box.logpath("trace")
         env["BREADLOG_VERIF_TRACE"] = tracelog
